@@ -2,9 +2,9 @@
 import nauyaca.protocol.request  # noqa: F401
 from nauyaca.protocol.response import GeminiResponse
 
-from vf import Ob, V, pick
+from vf import CONCRETE, Ob, V, pick
 from vf.server import make, wire_response
-from vf.symbuf import Fill, FillStr, SymBuf, mk
+from vf.symbuf import Fill, SymBuf, TextBody, mk
 from vf.tlsserver import feed, make_tls
 
 MAXFILE = 100 * 1024 * 1024
@@ -12,73 +12,85 @@ PUMP_MAX = pick(300_000, 2 * 1024 * 1024)
 HEADER = b"20 text/gemini\r\n"
 
 
-def _resp(n, kind):
-    """kind 0: bytes body of n filler bytes; 1: str body of n ASCII characters;
-    2: str body 'é' (2 bytes in UTF-8) followed by n ASCII characters"""
+def _resp(n, x, kind):
+    """kind 0: bytes body of n bytes; kind 1: str body of n characters, x of them 2-byte characters
+    (so n characters encode to n + x bytes).  Symbolic runs carry the two lengths separately
+    (TextBody); concrete replays use real str/bytes."""
+    if CONCRETE:
+        if kind == 0:
+            body = b"a" * n
+            return GeminiResponse(20, "text/gemini", body), body
+        text = "é" * x + "a" * (n - x)
+        return GeminiResponse(20, "text/gemini", text), text.encode("utf-8")
     if kind == 0:
         return GeminiResponse(20, "text/gemini", mk(Fill(n))), mk(Fill(n))
-    if kind == 1:
-        return GeminiResponse(20, "text/gemini", FillStr("aaa", mk(Fill(n)))), mk(Fill(n))
-    buf = mk("é".encode("utf-8"), Fill(n))
-    return GeminiResponse(20, "text/gemini", FillStr("éaaa", buf)), buf
+    buf = mk(Fill(n + x))
+    return GeminiResponse(20, "text/gemini", TextBody(n, buf)), buf
 
 
-def plain(n: int, kind: int) -> bool:
+def _same(data, want):
+    if CONCRETE:
+        return data.concrete() == HEADER + want
+    return data.same_as(mk(HEADER) + want)
+
+
+def plain(n: int, x: int, kind: int) -> bool:
     """
-    pre: 0 <= n <= MAXFILE
-    pre: 0 <= kind <= 2
+    pre: 0 <= n <= MAXFILE and 0 <= x <= n
+    pre: 0 <= kind <= 1
     post: _
     """
-    resp, want = _resp(n, kind)
+    resp, want = _resp(n, x, kind)
     p, t, loop = make(lambda r: resp)
     p.data_received(b"gemini://h/\r\n")
     loop.run_ready()
     data, closes, late = wire_response(t)
-    return V(closes >= 1 and late == 0 and data.same_as(mk(HEADER) + want))
+    return V(closes >= 1 and late == 0 and _same(data, want))
 
 
-def tls_pump(n: int, kind: int) -> bool:
+def tls_pump(n: int, x: int, kind: int) -> bool:
     """
-    pre: 0 <= n <= PUMP_MAX
-    pre: 0 <= kind <= 2
+    pre: 0 <= n <= PUMP_MAX and 0 <= x <= n and x <= 70000
+    pre: 0 <= kind <= 1
     post: _
     """
-    resp, want = _resp(n, kind)
+    resp, want = _resp(n, x, kind)
     outer, tcp, loop, conn, made = make_tls(lambda r: resp)
     feed(outer, tcp, [("hs",)])
     feed(outer, tcp, [("app", b"gemini://h/\r\n")])
     loop.run_ready()
     plain_, close_seen, after, all_out = conn.delivered(tcp)
-    return V(tcp.closed >= 1 and after == 0 and close_seen and plain_.same_as(mk(HEADER) + want))
+    return V(tcp.closed >= 1 and after == 0 and close_seen and _same(plain_, want))
 
 
-def tls_pump_real(n, kind):
+def tls_pump_real(n, x, kind):
     """L2: same scenario over two real PyOpenSSL memory-BIO connections."""
     from vf.real_tls import run_tls_exchange
-    body = [b"a" * n, "a" * n, "é" + "a" * n][kind]
+    body = b"a" * n if kind == 0 else "é" * x + "a" * (n - x)
     want = HEADER + (body if isinstance(body, bytes) else body.encode("utf-8"))
     got, closed, eof = run_tls_exchange(lambda r: GeminiResponse(20, "text/gemini", body), b"gemini://h/\r\n")
     return got == want and closed
 
 
-def both(n: int, kind: int) -> bool:
+def both(n: int, x: int, kind: int) -> bool:
     """
-    pre: 0 <= n <= 40000
-    pre: 0 <= kind <= 2
+    pre: 0 <= n <= 40000 and 0 <= x <= n
+    pre: 0 <= kind <= 1
     post: _
     """
-    resp, want = _resp(n, kind)
+    resp, want = _resp(n, x, kind)
     p, t, loop = make(lambda r: resp)
     p.data_received(b"gemini://h/\r\n")
     loop.run_ready()
     d1, c1, l1 = wire_response(t)
-    resp2, _ = _resp(n, kind)
+    resp2, _ = _resp(n, x, kind)
     outer, tcp, loop2, conn, made = make_tls(lambda r: resp2)
     feed(outer, tcp, [("hs",)])
     feed(outer, tcp, [("app", b"gemini://h/\r\n")])
     loop2.run_ready()
     d2, close_seen, after, all_out = conn.delivered(tcp)
-    return V(d1.same_as(d2) and c1 >= 1 and tcp.closed >= 1 and close_seen and after == 0 and l1 == 0)
+    same = d1.concrete() == d2.concrete() if CONCRETE else d1.same_as(d2)
+    return V(same and c1 >= 1 and tcp.closed >= 1 and close_seen and after == 0 and l1 == 0)
 
 
 META = {
@@ -103,14 +115,14 @@ FN = ["GeminiServerProtocol._send_response", "TLSTransportWrapper.write", "TLSTr
       "_initialize_inner_protocol", "_process_application_data"]
 OBLIGATIONS = [
     Ob("plain", plain, quick=120, thorough=300,
-       symbolic="body length n in 0..104857600; bytes / str / str with a 2-byte character",
+       symbolic="bytes body of n bytes, or text body of n characters of which x are 2-byte characters (n, x symbolic, n <= 104857600)",
        functions=["GeminiServerProtocol._send_response", "data_received", "_route_request"],
        stubs=["FakeTransport", "SymBuf/FillStr"]),
     Ob("tls_pump", tls_pump, quick=300, thorough=1800, real_replay=tls_pump_real,
-       symbolic="body length n in 0..%d; bytes / str / str with a 2-byte character" % PUMP_MAX,
+       symbolic="bytes body of n bytes or text body of n characters with x 2-byte characters, n in 0..%d" % PUMP_MAX,
        functions=FN, stubs=["StubTLSConn", "FakeTransport", "SymBuf/FillStr", "MiniLoop"],
        outside=["body lengths above %d on the PyOpenSSL pump" % PUMP_MAX]),
     Ob("both", both, quick=200, thorough=600,
-       symbolic="body length n in 0..40000: plaintext reconstructed from the pump == bytes written on the plain path",
+       symbolic="n in 0..40000, x in 0..n: plaintext reconstructed from the pump == bytes written on the plain path",
        functions=FN, stubs=["StubTLSConn", "FakeTransport", "SymBuf/FillStr"]),
 ]
